@@ -146,9 +146,35 @@ fn panic_msg(e: Box<dyn std::any::Any + Send>) -> String {
 }
 
 fn run_one_query(m: &mut Machine, q: &str, max_answers: usize) -> Value {
+    run_one_query_opts(m, q, max_answers, None, None).0
+}
+
+// growth = Some((from, count)): heap-growth requests from..from+count of this query fail;
+// interrupt = Some(n): the interrupt flag is raised when instruction n of this query is dispatched.
+// Returns the answers and (growth requests, dispatched instructions) counted during the query.
+fn run_one_query_opts(
+    m: &mut Machine,
+    q: &str,
+    max_answers: usize,
+    growth: Option<(u64, u64)>,
+    interrupt: Option<u64>,
+) -> (Value, (u64, u64)) {
     let mut answers = Vec::new();
     let mut more = false;
+    let (gf, gc) = growth.unwrap_or((0, 0));
+    scryer_prolog::verif_hooks::set_heap_growth_failure(gf, gc);
+    scryer_prolog::verif_hooks::set_interrupt_at_instruction(interrupt.unwrap_or(u64::MAX));
+    struct Reset;
+    impl Drop for Reset {
+        fn drop(&mut self) {
+            scryer_prolog::verif_hooks::set_heap_growth_failure(0, 0);
+            scryer_prolog::verif_hooks::set_interrupt_at_instruction(u64::MAX);
+            scryer_prolog::verif_hooks::clear_interrupt();
+        }
+    }
+    let counters;
     {
+        let _reset = Reset;
         let mut it = m.run_query(q.to_string());
         loop {
             if answers.len() >= max_answers {
@@ -166,11 +192,80 @@ fn run_one_query(m: &mut Machine, q: &str, max_answers: usize) -> Value {
                 }
             }
         }
+        drop(it);
+        counters = (
+            scryer_prolog::verif_hooks::heap_growth_requests(),
+            scryer_prolog::verif_hooks::dispatched_instructions(),
+        );
     }
     if more {
         answers.push(json!("more"));
     }
-    Value::Array(answers)
+    (Value::Array(answers), counters)
+}
+
+fn footprint_json(m: &Machine) -> Value {
+    let mut o = serde_json::Map::new();
+    for (k, v) in m.verif_footprint() {
+        o.insert(k.to_string(), json!(v));
+    }
+    Value::Object(o)
+}
+
+// A job with "steps": [ {"consult": text, "module": m} | {"load": text, "module": m} |
+//   {"q": goal, "take": k, "growth": [from, count], "interrupt": n} ... ] executed in order on one machine.
+// Result: {"results": [...one per step...], "counters": [[growth requests, instructions] per step],
+//          "footprints": [footprint after each step] (when job.footprint is true)}
+fn run_steps(machine: &mut Option<Machine>, job: &Value) -> Value {
+    let max_answers = job.get("max_answers").and_then(|v| v.as_u64()).unwrap_or(50) as usize;
+    let want_fp = job.get("footprint").and_then(|v| v.as_bool()).unwrap_or(false);
+    let mut results = Vec::new();
+    let mut counters = Vec::new();
+    let mut fps = Vec::new();
+    for step in job.get("steps").and_then(|v| v.as_array()).cloned().unwrap_or_default() {
+        if machine.is_none() {
+            *machine = Some(new_machine());
+        }
+        let module = step.get("module").and_then(|v| v.as_str()).unwrap_or("user").to_string();
+        let r = catch_unwind(AssertUnwindSafe(|| {
+            let m = machine.as_mut().unwrap();
+            if let Some(c) = step.get("consult").and_then(|v| v.as_str()) {
+                m.consult_module_string(&module, c.to_string());
+                (json!("ok"), (0, 0))
+            } else if let Some(c) = step.get("load").and_then(|v| v.as_str()) {
+                m.load_module_string(&module, c.to_string());
+                (json!("ok"), (0, 0))
+            } else {
+                let q = step.get("q").and_then(|v| v.as_str()).unwrap_or("true.");
+                let take = step.get("take").and_then(|v| v.as_u64()).map(|k| k as usize).unwrap_or(max_answers);
+                let growth = step.get("growth").and_then(|v| v.as_array()).map(|a| {
+                    (a[0].as_u64().unwrap_or(0), a[1].as_u64().unwrap_or(0))
+                });
+                let interrupt = step.get("interrupt").and_then(|v| v.as_u64());
+                run_one_query_opts(m, q, take, growth, interrupt)
+            }
+        }));
+        match r {
+            Ok((v, c)) => {
+                results.push(v);
+                counters.push(json!([c.0, c.1]));
+                if want_fp {
+                    fps.push(footprint_json(machine.as_ref().unwrap()));
+                }
+            }
+            Err(e) => {
+                scryer_prolog::verif_hooks::set_heap_growth_failure(0, 0);
+                scryer_prolog::verif_hooks::set_interrupt_at_instruction(u64::MAX);
+                *machine = None;
+                results.push(json!([{"panic": panic_msg(e)}]));
+                counters.push(json!([0, 0]));
+                if want_fp {
+                    fps.push(Value::Null);
+                }
+            }
+        }
+    }
+    json!({"results": results, "counters": counters, "footprints": fps})
 }
 
 // Every query runs under its own catch_unwind; after a panic the machine is rebuilt
@@ -223,10 +318,18 @@ fn mode_query(jobs_path: &str, out_path: &str) {
         }
         wd.arm(&id, timeout_ms);
         let t0 = Instant::now();
-        let res = run_queries(&mut machine, &job);
-        wd.disarm();
-        let ms = t0.elapsed().as_millis() as u64;
-        let rec = json!({"id": id, "results": res, "ms": ms});
+        let rec = if job.get("steps").is_some() {
+            let mut r = run_steps(&mut machine, &job);
+            wd.disarm();
+            r["id"] = json!(id);
+            r["ms"] = json!(t0.elapsed().as_millis() as u64);
+            r
+        } else {
+            let res = run_queries(&mut machine, &job);
+            wd.disarm();
+            let ms = t0.elapsed().as_millis() as u64;
+            json!({"id": id, "results": res, "ms": ms})
+        };
         // append + flush per record so that a later hard exit loses nothing
         let mut out = BufWriter::new(std::fs::OpenOptions::new().append(true).open(out_path).unwrap());
         writeln!(out, "{}", rec).unwrap();
